@@ -1,4 +1,431 @@
-From Coq Require Import String List ZArith Bool.
+(* C19 — lemmas about the configuration model (model/M_config.v):
+   1. the abstract loader is the fold of its own event list ([load_events]);
+   2. the static checker is sound for the loader ([wf_events_sound], [wf_config_sound_l]) and a
+      configuration that passes has every identified object constructed ([wf_config_constructs_l]);
+   3. the Jacobian checker: [check_terms] = true makes the handed density the joint density plus
+      each needed log-determinant exactly once (plus optional ones at most once). *)
+From Coq Require Import String List ZArith Bool Arith Permutation Reals Lra.
 Import ListNotations.
 From TT Require Import M_config.
-Lemma placeholder : True. Proof. exact I. Qed.
+Open Scope string_scope.
+Open Scope list_scope.
+
+(* ------------------------------------------------------------------ small facts on mem / nodupb *)
+
+Lemma mem_In : forall s l, mem s l = true <-> In s l.
+Proof.
+  induction l as [|x r IH]; simpl.
+  - split; [discriminate | tauto].
+  - destruct (String.eqb s x) eqn:E.
+    + apply String.eqb_eq in E. subst. tauto.
+    + apply String.eqb_neq in E. rewrite IH. split; [tauto|]. intros [H|H]; [congruence | exact H].
+Qed.
+
+Lemma mem_false : forall s l, mem s l = false <-> ~ In s l.
+Proof.
+  intros. rewrite <- mem_In. destruct (mem s l); split; intro H.
+  - discriminate.
+  - exfalso; apply H; reflexivity.
+  - intro; discriminate.
+  - reflexivity.
+Qed.
+
+Lemma nodupb_NoDup : forall l, nodupb l = true <-> NoDup l.
+Proof.
+  induction l as [|x r IH]; simpl.
+  - split; [constructor | reflexivity].
+  - rewrite andb_true_iff, negb_true_iff, mem_false, IH. split.
+    + intros [H1 H2]. constructor; assumption.
+    + intro H. inversion H. tauto.
+Qed.
+
+Lemma subset_incl : forall a b, subset a b = true <-> incl a b.
+Proof.
+  intros a b. unfold subset. rewrite forallb_forall. unfold incl.
+  split; intros H x Hx; [apply mem_In | apply mem_In]; auto.
+Qed.
+
+Lemma dedup_In : forall x l, In x (dedup l) <-> In x l.
+Proof.
+  induction l as [|y r IH]; simpl; [tauto|].
+  destruct (mem y r) eqn:E.
+  - rewrite IH. split; [tauto|]. intros [H|H]; [subst; apply mem_In; exact E | exact H].
+  - simpl. rewrite IH. tauto.
+Qed.
+
+Lemma dedup_NoDup : forall l, NoDup (dedup l).
+Proof.
+  induction l as [|y r IH]; simpl; [constructor|].
+  destruct (mem y r) eqn:E; [exact IH|].
+  constructor; [|exact IH]. rewrite dedup_In. apply mem_false. exact E.
+Qed.
+
+(* ------------------------------------------------------------------ induction on skeletons *)
+
+Section sk_induction.
+  Variable P : sk -> Prop.
+  Hypothesis Href : forall s, P (SRef s).
+  Hypothesis Hnone : P SNone.
+  Hypothesis Hseq : forall l, Forall P l -> P (SSeq l).
+  Hypothesis Hdict : forall kv, P (SDict kv).
+  Hypothesis Hdef : forall id body, Forall P body -> P (SDef id body).
+  Hypothesis Hbad : forall w, P (SBad w).
+
+  Fixpoint sk_ind2 (s : sk) : P s :=
+    match s with
+    | SRef r => Href r
+    | SNone => Hnone
+    | SSeq l => Hseq l ((fix go (l : list sk) : Forall P l :=
+                           match l with
+                           | [] => Forall_nil P
+                           | x :: t => Forall_cons x (sk_ind2 x) (go t)
+                           end) l)
+    | SDict kv => Hdict kv
+    | SDef id body => Hdef id body ((fix go (l : list sk) : Forall P l :=
+                                      match l with
+                                      | [] => Forall_nil P
+                                      | x :: t => Forall_cons x (sk_ind2 x) (go t)
+                                      end) body)
+    | SBad w => Hbad w
+    end.
+End sk_induction.
+
+(* ------------------------------------------------------------------ loader = fold of its events *)
+
+Fixpoint load_list (l : list sk) (reg : list string) : result :=
+  match l with
+  | [] => Ok reg
+  | x :: t => match load x reg with Ok reg' => load_list t reg' | e => e end
+  end.
+
+Lemma load_seq : forall l reg, load (SSeq l) reg = load_list l reg.
+Proof.
+  induction l as [|x t IH]; intro reg; [reflexivity|].
+  simpl. destruct (load x reg); [|reflexivity]. simpl in IH. apply IH.
+Qed.
+
+Lemma load_def : forall id body reg,
+  load (SDef id body) reg =
+  if mem id reg then Err (Duplicate id)
+  else match load_list body reg with Ok reg' => Ok (id :: reg') | e => e end.
+Proof.
+  intros. simpl. destruct (mem id reg); [reflexivity|].
+  assert (H : forall l r,
+    (fix go (l : list sk) (reg : list string) {struct l} : result :=
+       match l with
+       | [] => Ok reg
+       | x :: t => match load x reg with Ok reg' => go t reg' | Err e => Err e end
+       end) l r = load_list l r).
+  { induction l as [|x t IH]; intro r; [reflexivity|]. simpl. destruct (load x r); [apply IH | reflexivity]. }
+  rewrite H. reflexivity.
+Qed.
+
+Lemma run_app : forall a b reg,
+  run (a ++ b) reg = match run a reg with Ok r => run b r | Err e => Err e end.
+Proof.
+  induction a as [|e a IH]; intros b reg; [reflexivity|].
+  destruct e; simpl.
+  - destruct (mem id reg); [reflexivity | apply IH].
+  - destruct (mem r reg); [apply IH | reflexivity].
+  - apply IH.
+  - reflexivity.
+Qed.
+
+Lemma load_list_events : forall l,
+  Forall (fun s => forall reg, load s reg = run (events s) reg) l ->
+  forall reg, load_list l reg = run (flat_map events l) reg.
+Proof.
+  induction 1 as [|x t Hx Ht IH]; intro reg; [reflexivity|].
+  simpl. rewrite run_app, <- Hx. destruct (load x reg); [apply IH | reflexivity].
+Qed.
+
+(* The recursive loader and the linear run of the event list agree on every skeleton. *)
+Lemma load_events : forall s reg, load s reg = run (events s) reg.
+Proof.
+  induction s using sk_ind2; intro reg.
+  - simpl. destruct (mem s reg); reflexivity.
+  - reflexivity.
+  - rewrite load_seq. simpl. apply load_list_events. assumption.
+  - reflexivity.
+  - rewrite load_def. simpl. destruct (mem id reg); [reflexivity|].
+    rewrite run_app, <- (load_list_events body H reg).
+    destruct (load_list body reg); reflexivity.
+  - simpl. destruct (mem w reg); reflexivity.
+Qed.
+
+(* ------------------------------------------------------------------ soundness of the checker *)
+
+Lemma run_ok : forall evs reg chk,
+  no_fail evs = true ->
+  refs_resolve evs reg chk = true ->
+  NoDup (chk_ids evs) ->
+  (forall i, In i chk -> ~ In i (chk_ids evs)) ->
+  incl reg chk ->
+  exists reg', run evs reg = Ok reg' /\ incl reg reg' /\ (forall i, In i (set_ids evs) -> In i reg').
+Proof.
+  induction evs as [|e r IH]; intros reg chk Hnf Hrr Hnd Hdisj Hincl.
+  - exists reg. simpl. repeat split; [apply incl_refl | intros i []].
+  - destruct e; simpl in *.
+    + (* EChk *)
+      inversion Hnd as [|? ? Hni Hnd']; subst.
+      assert (Hm : mem id reg = false).
+      { apply mem_false. intro Hin. apply (Hdisj id); [apply Hincl; exact Hin | left; reflexivity]. }
+      rewrite Hm.
+      destruct (IH reg (id :: chk) Hnf Hrr Hnd') as [reg' [H1 [H2 H3]]].
+      * intros i [Hi|Hi] Hin; [subst; contradiction | apply (Hdisj i Hi); right; exact Hin].
+      * intros x Hx. right. apply Hincl. exact Hx.
+      * exists reg'. auto.
+    + (* ERef *)
+      apply andb_true_iff in Hrr. destruct Hrr as [Hm Hrr]. rewrite Hm.
+      apply (IH reg chk); assumption.
+    + (* ESet *)
+      apply andb_true_iff in Hrr. destruct Hrr as [Hm Hrr].
+      destruct (IH (id :: reg) chk Hnf Hrr Hnd Hdisj) as [reg' [H1 [H2 H3]]].
+      * intros x [Hx|Hx]; [subst; apply mem_In; exact Hm | apply Hincl; exact Hx].
+      * exists reg'. split; [exact H1|]. split.
+        -- intros x Hx. apply H2. right. exact Hx.
+        -- intros i [Hi|Hi]; [subst; apply H2; left; reflexivity | apply H3; exact Hi].
+    + discriminate.
+Qed.
+
+Lemma wf_events_sound : forall evs, wf_events evs = true ->
+  exists reg, run evs [] = Ok reg /\ forall i, In i (set_ids evs) -> In i reg.
+Proof.
+  intros evs H. unfold wf_events in H.
+  apply andb_true_iff in H. destruct H as [H H3].
+  apply andb_true_iff in H. destruct H as [H1 H2].
+  destruct (run_ok evs [] [] H1 H3) as [reg [Hr [_ Hs]]].
+  - apply nodupb_NoDup. exact H2.
+  - intros i [].
+  - apply incl_refl.
+  - exists reg. auto.
+Qed.
+
+(* wf_config j = true  ->  the abstract loader accepts j (no dangling reference, no duplicate id,
+   no object without id in a processed position, no class outside the registry / schema). *)
+Lemma wf_config_sound_l : forall registered j, wf_config registered j = true ->
+  exists reg, load (sk_of registered j) [] = Ok reg.
+Proof.
+  intros registered j H. unfold wf_config in H.
+  apply andb_true_iff in H. destruct H as [H _].
+  apply andb_true_iff in H. destruct H as [H _].
+  destruct (wf_events_sound _ H) as [reg [Hr _]].
+  exists reg. rewrite load_events. exact Hr.
+Qed.
+
+(* starts and ends of definitions are the same ids in a failure-free event list of a skeleton *)
+Lemma chk_ids_app : forall a b, chk_ids (a ++ b) = chk_ids a ++ chk_ids b.
+Proof. intros. unfold chk_ids. apply flat_map_app. Qed.
+Lemma set_ids_app : forall a b, set_ids (a ++ b) = set_ids a ++ set_ids b.
+Proof. intros. unfold set_ids. apply flat_map_app. Qed.
+Lemma no_fail_app : forall a b, no_fail (a ++ b) = no_fail a && no_fail b.
+Proof. intros. unfold no_fail. apply forallb_app. Qed.
+
+Lemma chk_set_list : forall l,
+  Forall (fun s => no_fail (events s) = true ->
+                   forall i, In i (chk_ids (events s)) -> In i (set_ids (events s))) l ->
+  no_fail (flat_map events l) = true ->
+  forall i, In i (chk_ids (flat_map events l)) -> In i (set_ids (flat_map events l)).
+Proof.
+  induction 1 as [|x t Hx Ht IH]; intros Hnf i Hi; [exact Hi|].
+  simpl in *. rewrite no_fail_app in Hnf. apply andb_true_iff in Hnf. destruct Hnf as [Ha Hb].
+  rewrite chk_ids_app in Hi. rewrite set_ids_app. apply in_or_app.
+  apply in_app_or in Hi. destruct Hi as [Hi|Hi]; [left; apply Hx; assumption | right; apply IH; assumption].
+Qed.
+
+Lemma chk_set : forall s, no_fail (events s) = true ->
+  forall i, In i (chk_ids (events s)) -> In i (set_ids (events s)).
+Proof.
+  induction s using sk_ind2; intros Hnf i Hi; simpl in *; try contradiction; try discriminate.
+  - apply chk_set_list; assumption.
+  - rewrite no_fail_app in Hnf. apply andb_true_iff in Hnf. destruct Hnf as [Ha _].
+    rewrite set_ids_app. apply in_or_app. destruct Hi as [Hi|Hi].
+    + right. subst. left. reflexivity.
+    + rewrite chk_ids_app in Hi. apply in_app_or in Hi. destruct Hi as [Hi|Hi].
+      * left. apply chk_set_list; assumption.
+      * simpl in Hi. contradiction.
+Qed.
+
+(* ... and then every identified object anywhere in the configuration has been constructed and
+   registered, each id once. *)
+Lemma wf_config_constructs_l : forall registered j, wf_config registered j = true ->
+  exists reg, load (sk_of registered j) [] = Ok reg /\
+              NoDup (all_ids j) /\ forall i, In i (all_ids j) -> In i reg.
+Proof.
+  intros registered j H. unfold wf_config in H.
+  apply andb_true_iff in H. destruct H as [H Hsub].
+  apply andb_true_iff in H. destruct H as [Hwf Hnd].
+  destruct (wf_events_sound _ Hwf) as [reg [Hr Hs]].
+  exists reg. split; [rewrite load_events; exact Hr|]. split; [apply nodupb_NoDup; exact Hnd|].
+  intros i Hi. apply Hs. unfold config_events in *.
+  apply chk_set.
+  - unfold wf_events in Hwf. apply andb_true_iff in Hwf. destruct Hwf as [Hwf _].
+    apply andb_true_iff in Hwf. destruct Hwf as [Hwf _]. exact Hwf.
+  - apply subset_incl in Hsub. apply Hsub. exact Hi.
+Qed.
+
+(* the checker really rejects: a dangling reference / a duplicate id make the loader fail *)
+Lemma load_dangling : forall r reg, ~ In r reg -> load (SRef r) reg = Err (Dangling r).
+Proof. intros r reg H. simpl. apply mem_false in H. rewrite H. reflexivity. Qed.
+
+Lemma load_duplicate : forall id body reg, In id reg -> load (SDef id body) reg = Err (Duplicate id).
+Proof. intros id body reg H. rewrite load_def. apply mem_In in H. rewrite H. reflexivity. Qed.
+
+(* ------------------------------------------------------------------ Jacobians, each exactly once *)
+
+Open Scope R_scope.
+
+Fixpoint rsum (l : list R) : R := match l with [] => 0 | x :: r => x + rsum r end.
+
+Lemma rsum_app : forall a b, rsum (a ++ b) = rsum a + rsum b.
+Proof. induction a as [|x a IH]; intro b; simpl; [lra | rewrite IH; lra]. Qed.
+
+Lemma rsum_perm : forall a b, Permutation a b -> rsum a = rsum b.
+Proof. induction 1; simpl; lra. Qed.
+
+Lemma NoDup_app_disj : forall (a b : list string),
+  NoDup a -> NoDup b -> (forall x, In x a -> ~ In x b) -> NoDup (a ++ b).
+Proof.
+  induction a as [|x a IH]; intros b Ha Hb Hd; simpl; [exact Hb|].
+  inversion Ha; subst. constructor.
+  - rewrite in_app_iff. intros [H|H]; [contradiction | apply (Hd x); [left; reflexivity | exact H]].
+  - apply IH; [assumption | assumption | intros y Hy; apply Hd; right; exact Hy].
+Qed.
+
+Section Jacobians.
+  (* value of log|det J_t| at the current point, for every transformed parameter / tree id t;
+     value of the constrained joint density `joint` *)
+  Variable logdet : string -> R.
+  Variable joint : R.
+
+  (* The density handed to the sampler / optimiser: the emitted JointDistributionModel sums its
+     members, `joint` and the listed terms; calling a listed term returns its log-determinant. *)
+  Definition handed (terms : list string) : R := joint + rsum (map logdet terms).
+
+  Definition extras (terms needs : list string) : list string :=
+    filter (fun x => negb (mem x needs)) terms.
+
+  Lemma check_terms_perm : forall terms needs optional,
+    NoDup needs ->
+    check_terms terms needs optional = true ->
+    Permutation terms (needs ++ extras terms needs) /\
+    NoDup terms /\ NoDup (extras terms needs) /\ incl needs terms /\
+    incl (extras terms needs) optional /\
+    (forall x, In x (extras terms needs) -> ~ In x needs).
+  Proof.
+    intros terms needs optional Hnn H. unfold check_terms in H.
+    apply andb_true_iff in H. destruct H as [H H3].
+    apply andb_true_iff in H. destruct H as [H1 H2].
+    apply nodupb_NoDup in H1. apply subset_incl in H2. apply subset_incl in H3.
+    assert (Hex : forall x, In x (extras terms needs) <-> In x terms /\ ~ In x needs).
+    { intro x. unfold extras. rewrite filter_In, negb_true_iff, mem_false. tauto. }
+    assert (Hne : NoDup (extras terms needs)) by (apply NoDup_filter; exact H1).
+    split; [|split; [exact H1|split; [exact Hne|split; [exact H2|split]]]].
+    - apply NoDup_Permutation; [exact H1| |].
+      + apply NoDup_app_disj; [exact Hnn | exact Hne |].
+        intros x Hx Hx'. apply Hex in Hx'. tauto.
+      + intro x. rewrite in_app_iff, Hex. split.
+        * intro Hx. destruct (in_dec string_dec x needs); [left; assumption | right; tauto].
+        * intros [Hx|[Hx _]]; [apply H2; exact Hx | exact Hx].
+    - intros x Hx. apply Hex in Hx. destruct Hx as [Hx Hn].
+      specialize (H3 x Hx). apply in_app_or in H3. tauto.
+    - intros x Hx. apply Hex in Hx. tauto.
+  Qed.
+
+  (* checker accepts  ->  handed density = joint + each needed log-det once + optional ones once *)
+  Lemma check_terms_sound : forall terms needs optional,
+    NoDup needs ->
+    check_terms terms needs optional = true ->
+    handed terms = joint + rsum (map logdet needs) + rsum (map logdet (extras terms needs)).
+  Proof.
+    intros terms needs optional Hnn H.
+    destruct (check_terms_perm _ _ _ Hnn H) as [Hp _].
+    unfold handed. rewrite (rsum_perm _ _ (Permutation_map logdet Hp)), map_app, rsum_app. lra.
+  Qed.
+
+  Lemma count_once : forall (l : list string) x, NoDup l -> In x l -> count_occ string_dec l x = 1%nat.
+  Proof.
+    intros l x Hn Hi. apply (proj1 (NoDup_count_occ' string_dec l) Hn x Hi).
+  Qed.
+
+  Lemma count_le_one : forall (l : list string) x, NoDup l -> (count_occ string_dec l x <= 1)%nat.
+  Proof. intros l x Hn. apply (proj1 (NoDup_count_occ string_dec l) Hn x). Qed.
+
+  (* statement on a configuration *)
+  Lemma jacobian_exactly_once_l : forall j ts,
+    targets j <> [] ->
+    jacobian_terms j = Some ts ->
+    check_jacobians j = true ->
+    let needs := needs_jacobian j in
+    let extra := extras ts needs in
+    handed ts = joint + rsum (map logdet needs) + rsum (map logdet extra)
+    /\ (forall t, In t needs -> count_occ string_dec ts t = 1%nat)
+    /\ (forall t, (count_occ string_dec ts t <= 1)%nat)
+    /\ (forall t, In t ts -> In t needs \/ In t (optional_jacobian j))
+    /\ NoDup needs /\ NoDup extra /\ incl extra (optional_jacobian j)
+    /\ (forall t, In t extra -> ~ In t needs).
+  Proof.
+    intros j ts Ht Hts Hc needs extra. unfold check_jacobians in Hc.
+    destruct (targets j) as [|t0 tr] eqn:Et; [congruence|].
+    rewrite Hts in Hc. apply andb_true_iff in Hc. destruct Hc as [_ Hc].
+    assert (Hnn : NoDup needs) by apply dedup_NoDup.
+    destruct (check_terms_perm _ _ _ Hnn Hc) as [Hp [Hnd [Hne [Hin [Hopt Hdis]]]]].
+    split; [apply (check_terms_sound _ _ _ Hnn Hc)|].
+    split; [intros t Hin'; apply count_once; [exact Hnd | apply Hin; exact Hin']|].
+    split; [intro t; apply count_le_one; exact Hnd|].
+    split.
+    { intros t Hin'. destruct (in_dec string_dec t needs) as [Hy|Hn]; [left; exact Hy|].
+      right. apply Hopt. unfold extra, extras. rewrite filter_In, negb_true_iff, mem_false. tauto. }
+    repeat split; assumption.
+  Qed.
+
+  (* full-strength corollary: when every moved transformed parameter carries a prior (nothing is
+     left to convention) the handed density is exactly joint + sum over the needed transforms *)
+  Lemma jacobian_exact_l : forall j ts,
+    targets j <> [] ->
+    jacobian_terms j = Some ts ->
+    check_jacobians j = true ->
+    optional_jacobian j = [] ->
+    handed ts = joint + rsum (map logdet (needs_jacobian j)) /\
+    Permutation ts (needs_jacobian j).
+  Proof.
+    intros j ts Ht Hts Hc Ho.
+    destruct (jacobian_exactly_once_l j ts Ht Hts Hc) as [H1 [_ [_ [_ [Hnn [_ [Hinc _]]]]]]].
+    rewrite Ho in Hinc.
+    assert (He : extras ts (needs_jacobian j) = []).
+    { destruct (extras ts (needs_jacobian j)) as [|x r] eqn:E; [reflexivity|].
+      exfalso. apply (Hinc x). left. reflexivity. }
+    rewrite He in H1. simpl in H1. split; [lra|].
+    unfold check_jacobians in Hc. destruct (targets j); [congruence|].
+    rewrite Hts in Hc. apply andb_true_iff in Hc. destruct Hc as [_ Hc].
+    destruct (check_terms_perm _ _ _ Hnn Hc) as [Hp _]. rewrite He, app_nil_r in Hp. exact Hp.
+  Qed.
+
+End Jacobians.
+
+(* the checker rejects what it should: a missing needed term, a repeated term *)
+Lemma check_terms_missing : forall terms needs optional t,
+  In t needs -> ~ In t terms -> check_terms terms needs optional = false.
+Proof.
+  intros terms needs optional t Hn Ht. unfold check_terms.
+  destruct (subset needs terms) eqn:E.
+  - apply subset_incl in E. exfalso. apply Ht. apply E. exact Hn.
+  - rewrite andb_false_r. reflexivity.
+Qed.
+
+Lemma check_terms_repeated : forall terms needs optional,
+  ~ NoDup terms -> check_terms terms needs optional = false.
+Proof.
+  intros terms needs optional H. unfold check_terms.
+  destruct (nodupb terms) eqn:E; [|reflexivity].
+  apply nodupb_NoDup in E. contradiction.
+Qed.
+
+Lemma check_terms_foreign : forall terms needs optional t,
+  In t terms -> ~ In t needs -> ~ In t optional -> check_terms terms needs optional = false.
+Proof.
+  intros terms needs optional t Ht Hn Ho. unfold check_terms.
+  destruct (subset terms (needs ++ optional)) eqn:E.
+  - apply subset_incl in E. specialize (E t Ht). apply in_app_or in E. tauto.
+  - apply andb_false_r.
+Qed.
